@@ -55,7 +55,15 @@ func uniformStyles() []map[string]int {
 // within devBudget, and under every uniform style with styleDev deviations.
 // f gets the rendering and a replayable case; it returns false to stop.
 func forLayouts(ctx *core.Ctx, tag string, m *ref.Model, devBudget, styleDev int, f func(r *ref.Rendered, lc *layoutCase)) {
+	forLayoutsSome(ctx, tag, m, devBudget, styleDev, nil, f)
+}
+
+// forLayoutsSome is forLayouts over the uniform styles that keep selects (nil: all; the canonical style is number 0).
+func forLayoutsSome(ctx *core.Ctx, tag string, m *ref.Model, devBudget, styleDev int, keep func(si int) bool, f func(r *ref.Rendered, lc *layoutCase)) {
 	for si, st := range uniformStyles() {
+		if keep != nil && !keep(si) {
+			continue
+		}
 		b := styleDev
 		if si == 0 {
 			b = devBudget
